@@ -53,7 +53,15 @@ type entrySpec struct {
 }
 
 type srcSpec struct {
-	Kind    string      `json:"k"` // none | missing | special | file | dir
+	// none | missing | special | file | dir  (outside the plugin root), and, inside it (histories with At set):
+	// indir    the directory <root>/Name (Slash: with a trailing separator; ViaLink: a symbolic link to it, outside
+	//          the root, given with a trailing separator)
+	// infile   the file <root>/Name/File.Name
+	// linkdir  a symbolic link (outside the root) to the directory <root>/Name - or, Name empty, to a directory
+	//          outside the root holding a proper plugin - given WITHOUT trailing separator
+	// linkfile a symbolic link named Link, outside the root, to <root>/Name/File.Name
+	Kind    string      `json:"k"`
+	Link    string      `json:"link,omitempty"`
 	Name    string      `json:"n,omitempty"`
 	File    fileSpec    `json:"f,omitempty"`
 	Entries []entrySpec `json:"es,omitempty"`
@@ -91,6 +99,7 @@ type dirSpec struct {
 }
 
 type histSpec struct {
+	At     bool          `json:"at,omitempty"` // the installations name the place of their source (IHistAt)
 	Family string        `json:"family"`
 	Table  []contentSpec `json:"table"` // cid = index+1
 	Init   []dirSpec     `json:"init,omitempty"`
@@ -370,6 +379,41 @@ func (e *histEnv) materialise(s srcSpec) string {
 		}
 		writeFileMode(p, e.bytesOf(s.File.Cid), s.File.Mode)
 		return p
+	case "indir":
+		p := filepath.Join(e.root, s.Name)
+		if s.ViaLink {
+			l := filepath.Join(d, "lnk")
+			if err := os.Symlink(p, l); err != nil {
+				panic(err)
+			}
+			return l + string(filepath.Separator)
+		}
+		if s.Slash {
+			return p + string(filepath.Separator)
+		}
+		return p
+	case "infile":
+		return filepath.Join(e.root, s.Name, s.File.Name)
+	case "linkdir":
+		tgt := filepath.Join(e.root, s.Name)
+		if s.Name == "" {
+			tgt = filepath.Join(d, "realdir")
+			if err := os.MkdirAll(tgt, 0o755); err != nil {
+				panic(err)
+			}
+			writeFileMode(filepath.Join(tgt, "notation-foo"), e.bytesOf(1), 0o755)
+		}
+		l := filepath.Join(d, "lnk")
+		if err := os.Symlink(tgt, l); err != nil {
+			panic(err)
+		}
+		return l
+	case "linkfile":
+		l := filepath.Join(d, s.Link)
+		if err := os.Symlink(filepath.Join(e.root, s.Name, s.File.Name), l); err != nil {
+			panic(err)
+		}
+		return l
 	case "dir":
 		p := filepath.Join(d, s.Name)
 		if err := os.MkdirAll(p, 0o755); err != nil {
@@ -534,6 +578,8 @@ func installErrClass(err error) string {
 		return "EExistMeta"
 	case strings.HasPrefix(msg, "failed to compare plugin versions"):
 		return "EVersion"
+	case strings.HasPrefix(msg, "failed to install plugin") && strings.HasSuffix(msg, "is the installed plugin"):
+		return "ESelf"
 	case strings.HasPrefix(msg, "failed to clean up plugin"):
 		return "ECleanup"
 	case strings.HasPrefix(msg, "failed to copy plugin"), strings.HasPrefix(msg, "failed to get the system path"):
@@ -725,6 +771,20 @@ func cSource(s srcSpec) string {
 	return CApp("SDir", CStr(s.Name), CList(items))
 }
 
+func cPlace(s srcSpec) string {
+	switch s.Kind {
+	case "indir":
+		return CApp("PInDir", CStr(s.Name))
+	case "infile":
+		return CApp("PInFile", CStr(s.Name), CStr(s.File.Name))
+	case "linkdir":
+		return "PLinkDir"
+	case "linkfile":
+		return CApp("PLinkFile", CStr(s.Link), CStr(s.Name), CStr(s.File.Name))
+	}
+	return CApp("POut", cSource(s))
+}
+
 func cTree(t []dirSpec) string {
 	items := make([]string, len(t))
 	for i, d := range t {
@@ -789,9 +849,14 @@ func caseTerm(id int64, c *caseSpec, o *caseObs) string {
 	h := c.Hist
 	ops := make([]string, len(h.Ops))
 	for i, op := range h.Ops {
-		if op.Op == "install" {
+		switch {
+		case op.Op == "install" && h.At:
+			ops[i] = CApp("AInstall", cPlace(op.Src), CBool(op.Overwrite))
+		case op.Op == "install":
 			ops[i] = CApp("OInstall", cSource(op.Src), CBool(op.Overwrite))
-		} else {
+		case h.At:
+			ops[i] = CApp("AUninstall", CStr(op.Name))
+		default:
 			ops[i] = CApp("OUninstall", CStr(op.Name))
 		}
 	}
@@ -805,7 +870,11 @@ func caseTerm(id int64, c *caseSpec, o *caseObs) string {
 		}
 		steps[i] = CApp("mk_sobs", res, cView(s.View))
 	}
-	in := CApp("IHist", cTable(h.Table), cTree(h.Init), CList(ops))
+	ctor := "IHist"
+	if h.At {
+		ctor = "IHistAt"
+	}
+	in := CApp(ctor, cTable(h.Table), cTree(h.Init), CList(ops))
 	ob := CApp("OHist", cView(*o.Init), CList(steps))
 	return CApp("mk_case", CN(id), in, ob)
 }
@@ -856,11 +925,11 @@ func runC20(a *Args) error {
 	prelude := "From NV Require Import Base C20_Semver C20_Model.\nOpen Scope string_scope.\n"
 	w := NewCaseWriter(a, "C20", prelude, "case", "run")
 	w.ShardSize = 1200
-	w.Rule = "histories of 1..6 Install/Uninstall operations on the real plugin.CLIManager (NewCLIManager(dir.NewSysFS(root))) in a temporary plugin root (empty or pre-populated, also with broken plugins: no binary, not executable, malformed / misnamed / failing metadata, invalid version), over stub plugins (foo, bar and odd names: '.', '..', 'a\\b', 'a.b', ...) whose versions come from the semver-ordered set 1.0.0-alpha < 1.0.0-alpha.1 < 1.0.0-alpha.beta < 1.0.0-beta < 1.0.0-beta.2 < 1.0.0-beta.11 < 1.0.0-rc.1 < 1.0.0 < 1.0.1 < 1.1.0 < 2.0.0 < 9.0.0 < 10.0.0, from versions with build metadata and from invalid strings, x overwrite flag x 44 source shapes {empty path, missing path, non-regular file, single executable / non-executable / misnamed file, directory with executable or non-executable candidate, extra files sorting before and after with modes 0600..0777, sub-directories (before, after, holding executables, named like the directory), symbolic links, two / three candidates in every executable pattern (also answering with each other's name), no candidate, invalid / misnamed / failing metadata}; after every operation the returned (existing, new, error class), the whole tree of the root (names, permission bits, contents), List and Get+GetMetadata of every directory are observed. Families: shapes = every source shape on a fresh root, over a lower, a higher and the same version, with and without overwrite; pairs = every ordered pair of the version set as install-then-reinstall (quick: all valid pairs without overwrite, the rest sampled; thorough: all x overwrite); broken / names = broken existing plugins and invalid plugin names; random = random histories with random extra directory entries. Family nearmiss (seed C20-5): every string of 1.1 | 1 | 2.0 | v1.0.0 | 1.0.0.0 | 01.0.0 | 1.0.0- | 1.0.0+ | 1.0 | ' 1.0.0' | '1.0.0 ' | 1.0.0-01 | 1.0.0-a..b | '' as the NEW version (after 1.0.0 / 1.1.0 / 3.0.0, followed by a proper upgrade) and as the INSTALLED version (got in by a fresh installation or present before the manager exists; then installs of 1.0.0 / 3.0.0 / 0.0.1 / itself without overwrite, then with overwrite) of two- to four-step histories over the three source shapes file / directory with extras / directory with a non-executable candidate; the outcome the property fixes for every step (refused with the version error and an untouched root, or accepted over the untouched plugin) is written into the step and judged on the Go side as well as by the Coq oracle, so that a failing input is reported even when Generated.v cannot be produced. The table of every history is printed as what each file content PRINTS (established by running it directly and decoding with encoding/json); the model of plugin.validate decides what is valid metadata. Plus ComparePluginVersion (through verifbridge) on every ordered pair of 40 valid fixed versions, invalid strings, and generated version strings (numeric / alphanumeric / hyphen identifiers, leading zeros, 64-bit overflow, build metadata; 5/6 valid). Family concurrent (a re-executed child process; crash or timeout = violation): ONE CLIManager and plugin root shared by 8 (thorough 12) goroutines, each owning one plugin name with its own versions and contents: first a burst of 1500 (6000) rounds of Get / Uninstall / Install-from-a-missing-path / Get(stable) / List that execute no plugin, then 40 (120) histories of 6 Install/Uninstall operations each with List + Get+GetMetadata after every operation, under a context logger that yields on every call and sleeps 1.5 ms on every fourth, while 2 goroutines keep asking Get+GetMetadata+List for a plugin nobody touches; every per-name history (view restricted to that name) is an ordinary case judged by the model on an empty initial root. non-trivial = a history in which an install meets an installed plugin of the same name or uses a directory source with other entries, or a comparison of two valid different versions; distinct = distinct (table, initial root, operations) / (v, w)"
+	w.Rule = "histories of 1..6 Install/Uninstall operations on the real plugin.CLIManager (NewCLIManager(dir.NewSysFS(root))) in a temporary plugin root (empty or pre-populated, also with broken plugins: no binary, not executable, malformed / misnamed / failing metadata, invalid version), over stub plugins (foo, bar and odd names: '.', '..', 'a\\b', 'a.b', ...) whose versions come from the semver-ordered set 1.0.0-alpha < 1.0.0-alpha.1 < 1.0.0-alpha.beta < 1.0.0-beta < 1.0.0-beta.2 < 1.0.0-beta.11 < 1.0.0-rc.1 < 1.0.0 < 1.0.1 < 1.1.0 < 2.0.0 < 9.0.0 < 10.0.0, from versions with build metadata and from invalid strings, x overwrite flag x 44 source shapes {empty path, missing path, non-regular file, single executable / non-executable / misnamed file, directory with executable or non-executable candidate, extra files sorting before and after with modes 0600..0777, sub-directories (before, after, holding executables, named like the directory), symbolic links, two / three candidates in every executable pattern (also answering with each other's name), no candidate, invalid / misnamed / failing metadata}; after every operation the returned (existing, new, error class), the whole tree of the root (names, permission bits, contents), List and Get+GetMetadata of every directory are observed. Families: shapes = every source shape on a fresh root, over a lower, a higher and the same version, with and without overwrite; pairs = every ordered pair of the version set as install-then-reinstall (quick: all valid pairs without overwrite, the rest sampled; thorough: all x overwrite); broken / names = broken existing plugins and invalid plugin names; random = random histories with random extra directory entries. Family nearmiss (seed C20-5): every string of 1.1 | 1 | 2.0 | v1.0.0 | 1.0.0.0 | 01.0.0 | 1.0.0- | 1.0.0+ | 1.0 | ' 1.0.0' | '1.0.0 ' | 1.0.0-01 | 1.0.0-a..b | '' as the NEW version (after 1.0.0 / 1.1.0 / 3.0.0, followed by a proper upgrade) and as the INSTALLED version (got in by a fresh installation or present before the manager exists; then installs of 1.0.0 / 3.0.0 / 0.0.1 / itself without overwrite, then with overwrite) of two- to four-step histories over the three source shapes file / directory with extras / directory with a non-executable candidate; the outcome the property fixes for every step (refused with the version error and an untouched root, or accepted over the untouched plugin) is written into the step and judged on the Go side as well as by the Coq oracle, so that a failing input is reported even when Generated.v cannot be produced. The table of every history is printed as what each file content PRINTS (established by running it directly and decoding with encoding/json); the model of plugin.validate decides what is valid metadata. Family places (after 6dc7abe; cases IHistAt, every installation names the place of its source): the plugin's own directory (directly, with a trailing separator, through a symbolic link given with one), its own executable, other / missing files of it, missing directories, the directories and files of OTHER plugins holding an executable named for foo (one, two candidates), a plugin with an invalid version / malformed metadata as its own source, symbolic links to directories without trailing separator, file links into other plugins' directories; x overwrite x foo below / above what the other directories hold; alone and in 6-7 step histories with ordinary installations before and after. Plus ComparePluginVersion (through verifbridge) on every ordered pair of 40 valid fixed versions, invalid strings, and generated version strings (numeric / alphanumeric / hyphen identifiers, leading zeros, 64-bit overflow, build metadata; 5/6 valid). Family concurrent (a re-executed child process; crash or timeout = violation): ONE CLIManager and plugin root shared by 8 (thorough 12) goroutines, each owning one plugin name with its own versions and contents: first a burst of 1500 (6000) rounds of Get / Uninstall / Install-from-a-missing-path / Get(stable) / List that execute no plugin, then 40 (120) histories of 6 Install/Uninstall operations each with List + Get+GetMetadata after every operation, under a context logger that yields on every call and sleeps 1.5 ms on every fourth, while 2 goroutines keep asking Get+GetMetadata+List for a plugin nobody touches; every per-name history (view restricted to that name) is an ordinary case judged by the model on an empty initial root. non-trivial = a history in which an install meets an installed plugin of the same name or uses a directory source with other entries, or a comparison of two valid different versions; distinct = distinct (table, initial root, operations) / (v, w)"
 	w.Assumptions = []string{
 		"what a plugin file prints for get-plugin-metadata is a function of its content (stub scripts print what is written in them; every content is run directly, its output decoded with encoding/json into the six metadata fields, and that is the table given to the model, which applies plugin.validate itself); plugin.ContractVersion of the framework is 1.0 (checked)",
 		"near-miss family: the expected outcome of every step is the one the property text fixes for strings that are not SemVer 2.0.0 versions; it is checked on the Go side (implementation-violation) and independently by the Coq oracle",
-		"the source of an installation lies outside the plugin root and is not modified concurrently",
+		"the source of an installation is not modified concurrently; it may lie inside the plugin root (family places: own directory / executable, other plugins' directories and files, links), except for the two forms on which the unchanged code is known to change the root although it refuses (docs/audit/C20.md, C20_at_frame_refuted): a directory of the root whose only notation-* file is not executable, and a link named for a plugin into that plugin's own directory - these are not generated",
 		"the harness runs as a user for whom the files are readable; a file is executable by that user iff its owner-execute bit is set (modes are generated accordingly)",
 		"error classes of Install/Uninstall are recognised by errors.As / errors.Is and by the fixed message prefixes of manager.go",
 		"concurrency family: goroutines work on different plugin names; a history in which an exec inside Install hit ETXTBSY (a child forked by another goroutine still holding the descriptor of a freshly copied executable: fork/exec, not the manager) is dropped and counted; Get+GetMetadata of the harness retries on ETXTBSY",
@@ -973,6 +1042,11 @@ func runC20(a *Args) error {
 					}
 					if op.Src.Kind == "dir" && len(op.Src.Entries) > 1 {
 						nontrivial = true
+					}
+					switch op.Src.Kind {
+					case "indir", "infile", "linkdir", "linkfile":
+						nontrivial = true
+						w.Count("place", op.Src.Kind+"/"+cl)
 					}
 				} else {
 					cl := s.Err
